@@ -1870,9 +1870,8 @@ thread_local! {
     static RAN: std::cell::RefCell<BTreeSet<String>> = const { std::cell::RefCell::new(BTreeSet::new()) };
 }
 
-fn exec_conc(case: &Case) -> Exec {
+fn exec_conc(case: &Case, fresh: bool) -> Exec {
     let mut ex = Exec::new();
-    let fresh = !RAN.with(|r| r.borrow().contains(&case.name));
     for line in &case.lines {
         let w: Vec<&str> = line.split_whitespace().collect();
         match w.first().copied() {
@@ -1932,7 +1931,7 @@ fn gen_conc(rng: &mut Rng, i: usize, big: bool) -> Case {
     };
     let name = format!("conc-{i}");
     let mut lines = vec![spec.line()];
-    lines.extend(run_conc(&spec));
+    lines.extend(worker_conc(&spec));
     RAN.with(|r| r.borrow_mut().insert(name.clone()));
     Case { name, lines }
 }
@@ -2286,18 +2285,228 @@ fn generate(tier: &str, rng: &mut Rng) -> Vec<Case> {
     cases
 }
 
-fn exec(case: &Case) -> Exec {
+/// run one case in this process
+fn exec_local(case: &Case, fresh: bool) -> Exec {
     if case.lines.first().map(|l| l.starts_with("conc ") || l.starts_with("judge ")).unwrap_or(false) {
-        exec_conc(case)
+        exec_conc(case, fresh)
     } else {
         exec_det(case)
     }
 }
 
+// ---------------------------------------------------------------------------------------------
+// process isolation: the real code can abort the process (a panic while unwinding, e.g. a poisoned registry
+// mutex locked again by `Drop for Registration`). Every case therefore runs in a worker child process
+// (`c19 --worker`, one long-lived child, restarted after a crash); a worker that dies or hangs while
+// executing a case turns into the monitor failure `C19:abort` / `C19:hang` with that case as replay.
+
+struct Worker {
+    child: std::process::Child,
+    stdin: std::process::ChildStdin,
+    lines: mpsc::Receiver<String>,
+}
+
+thread_local! {
+    static WORKER: std::cell::RefCell<Option<Worker>> = const { std::cell::RefCell::new(None) };
+}
+
+const CASE_TIMEOUT: Duration = Duration::from_secs(180);
+
+fn start_worker() -> Worker {
+    use std::io::BufRead;
+    let exe = std::env::current_exe().expect("current_exe");
+    let mut child = std::process::Command::new(exe)
+        .arg("--worker")
+        .stdin(std::process::Stdio::piped())
+        .stdout(std::process::Stdio::piped())
+        .stderr(std::process::Stdio::null())
+        .spawn()
+        .expect("spawn worker");
+    let stdin = child.stdin.take().unwrap();
+    let stdout = child.stdout.take().unwrap();
+    let (tx, rx) = mpsc::channel();
+    thread::spawn(move || {
+        for l in std::io::BufReader::new(stdout).lines() {
+            match l {
+                Ok(l) => {
+                    if tx.send(l).is_err() {
+                        break;
+                    }
+                }
+                Err(_) => break,
+            }
+        }
+    });
+    Worker { child, stdin, lines: rx }
+}
+
+/// send a request, collect the answer lines up to `DONE`; `Err(why)` when the worker died or hung
+fn worker_request(req: &str) -> Result<Vec<String>, String> {
+    use std::io::Write;
+    WORKER.with(|w| {
+        let mut w = w.borrow_mut();
+        if w.is_none() {
+            *w = Some(start_worker());
+        }
+        let wk = w.as_mut().unwrap();
+        let sent = wk.stdin.write_all(req.as_bytes()).and_then(|_| wk.stdin.flush());
+        let mut out = vec![];
+        let mut err = None;
+        if sent.is_err() {
+            err = Some("abort");
+        }
+        while err.is_none() {
+            match wk.lines.recv_timeout(CASE_TIMEOUT) {
+                Ok(l) if l == "DONE" => break,
+                Ok(l) => out.push(l),
+                Err(mpsc::RecvTimeoutError::Timeout) => err = Some("hang"),
+                Err(mpsc::RecvTimeoutError::Disconnected) => err = Some("abort"),
+            }
+        }
+        match err {
+            None => Ok(out),
+            Some(kind) => {
+                let mut wk = w.take().unwrap();
+                wk.child.kill().ok();
+                let status = wk.child.wait().map(|s| s.to_string()).unwrap_or_else(|e| e.to_string());
+                Err(format!("{kind}: worker process {status}"))
+            }
+        }
+    })
+}
+
+fn stop_worker() {
+    WORKER.with(|w| {
+        if let Some(mut wk) = w.borrow_mut().take() {
+            drop(wk.stdin);
+            wk.child.wait().ok();
+        }
+    });
+}
+
+/// run the scenario of a conc case in the worker; its `hist` lines
+fn worker_conc(spec: &ConcSpec) -> Vec<String> {
+    match worker_request(&format!("CONC\t{}\n", spec.line())) {
+        Ok(l) => l.into_iter().filter_map(|x| x.strip_prefix("H ").map(str::to_string)).collect(),
+        Err(why) => vec![format!("hist {}", if why.starts_with("hang") { "hang" } else { "abort" })],
+    }
+}
+
+fn exec(case: &Case) -> Exec {
+    let fresh = !RAN.with(|r| r.borrow().contains(&case.name));
+    let mut req = format!("CASE\t{}\t{}\n", fresh as u8, case.name.replace(['\t', '\n'], " "));
+    for l in &case.lines {
+        req.push_str("L ");
+        req.push_str(&l.replace('\n', " "));
+        req.push('\n');
+    }
+    req.push_str("END\n");
+    let mut ex = Exec::new();
+    match worker_request(&req) {
+        Ok(lines) => {
+            for l in lines {
+                if let Some(o) = l.strip_prefix("O ") {
+                    ex.out.push(o.to_string());
+                } else if l == "O" {
+                    ex.out.push(String::new());
+                } else if let Some(f) = l.strip_prefix("F ") {
+                    let (sig, detail) = f.split_once('\t').unwrap_or((f, ""));
+                    ex.fail(sig, detail);
+                } else if let Some(t) = l.strip_prefix("T ") {
+                    ex.tag(t);
+                } else if l == "N 1" {
+                    ex.nontrivial = true;
+                }
+            }
+            if ex.out.len() != case.lines.len() {
+                ex.fail("C19:harness-protocol", format!("worker answered {} lines for {}", ex.out.len(), case.lines.len()));
+                ex.out.resize(case.lines.len(), "lost".into());
+            }
+        }
+        Err(why) => {
+            let kind = if why.starts_with("hang") { "hang" } else { "abort" };
+            ex.out = vec![kind.to_string(); case.lines.len()];
+            ex.tag(format!("worker:{kind}"));
+            ex.fail(
+                format!("C19:{kind}"),
+                format!("the process running this case on the real code {why} (a panic in a no-unwind context aborts the whole process; a hang means no progress for {} s)", CASE_TIMEOUT.as_secs()),
+            );
+        }
+    }
+    ex
+}
+
+fn worker_main() {
+    use std::io::{BufRead, Write};
+    std::panic::set_hook(Box::new(|_| {}));
+    let stdin = std::io::stdin();
+    let mut out = std::io::BufWriter::new(std::io::stdout());
+    let mut it = stdin.lock().lines();
+    while let Some(Ok(head)) = it.next() {
+        let parts: Vec<&str> = head.split('\t').collect();
+        match parts.as_slice() {
+            ["CONC", spec] => {
+                let w: Vec<&str> = spec.split_whitespace().collect();
+                if let Some(spec) = ConcSpec::parse(&w) {
+                    match catch(|| run_conc(&spec)) {
+                        Ok(h) => {
+                            for l in h {
+                                writeln!(out, "H {l}").ok();
+                            }
+                        }
+                        Err(e) => {
+                            writeln!(out, "H hist panic {}", e.replace(['\n', '\t'], " ")).ok();
+                        }
+                    }
+                }
+            }
+            ["CASE", fresh, name] => {
+                let mut lines = vec![];
+                for l in it.by_ref() {
+                    let Ok(l) = l else { break };
+                    if l == "END" {
+                        break;
+                    }
+                    lines.push(l.strip_prefix("L ").unwrap_or(&l).to_string());
+                }
+                let case = Case { name: name.to_string(), lines };
+                let n = case.lines.len();
+                let ex = match catch(|| exec_local(&case, *fresh == "1")) {
+                    Ok(ex) => ex,
+                    Err(e) => {
+                        let mut ex = Exec::new();
+                        ex.out = vec!["panic".into(); n];
+                        ex.fail("C19:harness-panic", e);
+                        ex
+                    }
+                };
+                for o in &ex.out {
+                    writeln!(out, "O {}", o.replace('\n', " ")).ok();
+                }
+                for f in &ex.failures {
+                    writeln!(out, "F {}\t{}", f.sig, f.detail.replace(['\n', '\t'], " ")).ok();
+                }
+                for t in &ex.tags {
+                    writeln!(out, "T {t}").ok();
+                }
+                writeln!(out, "N {}", ex.nontrivial as u8).ok();
+            }
+            _ => {}
+        }
+        writeln!(out, "DONE").ok();
+        out.flush().ok();
+    }
+}
+
 fn main() {
+    if std::env::args().any(|a| a == "--worker") {
+        worker_main();
+        return;
+    }
     run_harness(
         generate,
         exec,
-        "a det case is non-trivial when it has at least 4 operations and at least one `run` (the actors really executed); a conc case when at least two threads sent to the same actor",
+        "a det case is non-trivial when it has at least 4 operations and at least one `run` (the actors really executed); a conc case when at least two threads sent to the same actor; a judge case always",
     );
+    stop_worker();
 }
